@@ -264,6 +264,9 @@ func untype(v interface{}) interface{} {
 		}
 		return m
 	case []interface{}:
+		if t == nil {
+			return "\x01go:nillist:" // a nil list is not an empty one (gob returns empty lists as nil)
+		}
 		l := make([]interface{}, len(t))
 		for i, e := range t {
 			l[i] = untype(e)
@@ -351,6 +354,8 @@ func retype(v interface{}) interface{} {
 			return json.Number(p[1])
 		case "bytes":
 			return []byte(p[1])
+		case "nillist":
+			return []interface{}(nil)
 		case "float64":
 			f, _ := strconv.ParseFloat(p[1], 64)
 			return f
